@@ -93,5 +93,5 @@ P_Acc == [][acc' = AccNext(acc, Call, Res)]_vars
 (* ------------------------------ edge cover -------------------------------------------- *)
 (* One line per generated transition: a shortest history to the source state followed by  *)
 (* the action (TLC evaluates the action constraint for every successor it generates).     *)
-EdgePrint == PrintT(<<"EDGE", ToJson(hist')>>)
+EdgePrint == PrintT(<<"EDGE", ToJson([r |-> last'.res, h |-> hist'])>>)
 =============================================================================
